@@ -112,7 +112,7 @@ impl Property for C13 {
         "(a) compile: sequences of absolute/relative/negative/zero/constant-expression/wrapping time labels interleaved with uniquely tagged instructions, nested in blocks, conditionals and loops; expected time from the label-arithmetic model (M-time); (b) decompile: raw instruction streams with monotone, decreasing, negative->positive, equal-run and extreme stored times (plus jumps whose time argument equals the previous/next/an arbitrary time); emitted labels re-evaluated with M-time and the text recompiled; non-trivial = a decrease, a sign crossing or a label at a block edge"
     }
     fn tape_len(&self, tier: Tier) -> usize { tier.pick(200, 400) }
-    fn cases(&self, tier: Tier) -> u32 { tier.pick(4000, 300000) }
+    fn cases(&self, tier: Tier) -> u32 { tier.pick(200000, 4000000) }
     fn required_labels(&self, _tier: Tier) -> Vec<&'static str> { vec!["compile", "decompile", "decrease", "crossing", "edge_label", "wrapped", "jump"] }
 
     fn generate(&self, tape: &mut Tape, tier: Tier, _known: &Known) -> Value {
